@@ -50,7 +50,7 @@ Proof.
     destruct (la_loop_gen s cd bd pt) with (k := length s) (fuel := fl) as (res & -> & Hres)
   end.
   - intros v. reflexivity.
-  - intros i c Hc. cbv beta. rewrite (go_index_nat _ _ _ Hc). cbn [gbind]. destruct (c <=? 127)%N; reflexivity.
+  - intros i c Hc. cbv beta. rewrite (go_index_nat _ _ _ Hc). cbn [gbind]. destruct (c <=? 127)%N eqn:?; close_spec.
   - intros v. reflexivity.
   - lia.
   - lia.
